@@ -86,6 +86,16 @@ CLAIMED = {
         text='coq/props/C18.v (10 theorems): a failing serialisation means the sink sees no operation at all (existing path, new path, open file object), dumps never returns a prefix, and failure is independent of the position/depth of the unsupported element (induction over one-hole contexts with the leaf serialisers as oracle). That the real get_state has that strict shape is correspondence: every node position of generated structures x rotating bad-element kinds x 4 sinks under the audit hook.',
         note='Trusted: audit-hook observation of the destination; the serializer itself is an oracle here (modelled under C04/C05).',
         ref='DESIGN.md section 4 C18'),
+    "C13": dict(
+        technique="Coq proof over an executable model of walk_tree/_traverse_tree/printer + model/implementation correspondence",
+        text=("coq/props/C13.v: whenever visualize completes (any archive, any trusted list, any show mode) what reaches the printer is the root row followed by rows each at most one level "
+              "deeper than the previous one, and only rows the filter admits; every row carries the audit's own verdicts for its node (is_self_safe, and fully-safe iff the graph audit "
+              "below it reports nothing); the root row is fully safe iff get_untrusted_types is empty for that trust setting; a row is tagged [UNSAFE] iff its own type is untrusted; "
+              "a generic node that is not self-safe is never fully safe. The model (lazy row stream, key_types special case, SKIPPED kinds from the snapshot, Ref/cycle unrolling, the plain-text printer) "
+              "is compared with /repo on generated valid+malformed archives x trusted x show (printed text and raw rows). Totality on real dumps is checked on generated values x 3 trust settings x 3 show modes."),
+        note=("Trusted: Coq kernel; snapshot (SKIPPED_TYPES); generator, runner. rich is absent here: colours not exercised. Open findings: D24 (show='trusted' level jump), D15c (key named key_types), "
+              "D31 (SliceNode / FunctionNode@0 display a name their audit ignores). D15 (slices, bound methods, state-less objects) was repaired in /repo."),
+        ref="DESIGN.md section 4 C13"),
 }
 
 PENDING_REASON = "check not built yet (see DESIGN.md section 8 build order); not claimed in this revision"
